@@ -117,7 +117,11 @@ class Calc(object):
         """expression : NAME"""
         try:
             p[0] = p[1]
+            seen = set()
             while not isinstance(p[0], int):
+                if p[0] in seen:
+                    raise ParseError("constant '%s' is defined by itself" % p[1])
+                seen.add(p[0])
                 p[0] = self.vars[p[0]]
         except LookupError:
             raise ParseError("numeric constant '%s' not found" % p[1])
